@@ -266,3 +266,59 @@ def reflection(h, n=2):
     v2 = H2.spacelike_vector
     h.eq("reflection across the moved wall negates the moved normal", v2 @ R2.proj_data, -v2, validate=False)
     h.eq("reflection across the moved wall = conjugate of the original reflection", R2.proj_data, np.linalg.inv(g.proj_data) @ M @ g.proj_data, validate=False)
+
+
+class _EigStubBatch:
+    """eigen stub for a STACK of matrices with known simple spectra: independent eigenvalue order and eigenvector scales per element"""
+    def __init__(self, h, units):
+        self.h = h
+        self.units = units            # list of (evals, evecs)
+
+    def __call__(self, mat, *a, **kw):
+        h = self.h
+        vals, vecs = [], []
+        for e, (evals, evecs) in enumerate(self.units):
+            st = _EigStub(h, evals, evecs)
+            # distinct fresh names per element
+            orig_fresh = h.fresh
+            fx = dict(h.opts.get('fix', {}))
+            if f"eig_perm{e}" in fx:
+                h.opts.setdefault('fix', {})['eig_perm'] = fx[f"eig_perm{e}"]
+            try:
+                h.fresh = (lambda name, _e=e, _f=orig_fresh: _f(f"{name}_el{_e}"))
+                v, w = st(None)
+            finally:
+                h.fresh = orig_fresh
+                if 'eig_perm' in h.opts.get('fix', {}) and f"eig_perm{e}" in fx:
+                    h.opts['fix'].pop('eig_perm', None)
+            vals.append(v)
+            vecs.append(w)
+        return np.stack(vals, axis=0), np.stack(vecs, axis=0)
+
+
+def composite_fixed_points(h, n=2):
+    """fixed_point_pair of a composite isometry (two loxodromics with independent data): each unit gets its own attracting / repelling pair"""
+    units, isos, wants = [], [], []
+    for e in range(2):
+        lam = h.var(f"lam{e}")
+        h.assume(lam > 1, 'translation parameter lambda > 1')
+        C = _conj(h, n, tag=f"C{e}")
+        L = hyperbolic.Isometry.standard_loxodromic(n, lam)
+        iso0 = C @ L @ C.inv()
+        one = 1 + 0 * lam
+        base = [np.array([1, 1, 0]), np.array([1, -1, 0]), np.array([0, 0, 1])]
+        evecs = [(C @ hyperbolic.Point(b * one)).proj_data for b in base]
+        units.append(([lam, 1 / lam, one], evecs))
+        isos.append(iso0.proj_data)
+        wants.append(evecs)
+    iso = hyperbolic.Isometry(np.array(isos, dtype=object if h.is_sym() else float))
+    with _with_eig(h, _EigStubBatch(h, units)):
+        pair = iso.fixed_point_pair()
+    P = pair.proj_data
+    h.eq("shape", np.array(P.shape), np.array([2, 2, n + 1]))
+    J = _J(n)
+    for e in range(2):
+        h.proj_eq(f"unit {e}: first fixed point is its attracting endpoint", P[e][0], wants[e][0], nonzero=False)
+        h.proj_eq(f"unit {e}: second fixed point is its repelling endpoint", P[e][1], wants[e][1], nonzero=False)
+        for k in range(2):
+            h.eq(f"unit {e}: fixed point {k} is lightlike", P[e][k] @ J @ P[e][k], 0, validate=False)
